@@ -49,6 +49,7 @@ type ConnSpec struct {
 	IdleBefore    int    // virtual seconds to sleep after connecting and before sending anything
 	SendNote      string // wait for this note before sending the last segment
 	DialAfter     int    // virtual seconds to sleep before connecting
+	FragmentHello bool   // the TLS ClientHello leaves in three TCP segments
 	ReadFor       int    // with Read == "all": give up reading after this many virtual seconds without EOF
 	IdleAfterSend int    // virtual seconds to sleep after sending and before reading anything
 	AckAt         int    // after this many frames have been read, raise AckNote (then go on reading)
@@ -108,6 +109,9 @@ func (sp *Spec) body() {
 	}
 	if sp.Srv.TLS != nil {
 		w.TLSCfg = sp.Srv.TLS
+	}
+	if sp.Srv.StartTLS != nil {
+		w.TLSCfg = sp.Srv.StartTLS
 	}
 	for ci := range sp.Conns {
 		for _, h := range sp.Conns[ci].H {
@@ -203,6 +207,7 @@ func runClient(w *World, ci int, name string, cs *ConnSpec) {
 		return
 	}
 	cl.Tap()
+	cl.FragmentHello = cs.FragmentHello
 	ccfg := cs.TLSCfg
 	if ccfg == nil {
 		ccfg = getPKI().ClientCfg
